@@ -5,3 +5,10 @@ go 1.23
 require github.com/nyaruka/goflow v0.0.0
 
 replace github.com/nyaruka/goflow => /repo
+
+require golang.org/x/tools v0.29.0
+
+require (
+	golang.org/x/mod v0.22.0 // indirect
+	golang.org/x/sync v0.10.0 // indirect
+)
